@@ -223,20 +223,23 @@ func (b *Batch) Commit() error {
 	logRecord.Key = append(logRecord.Key, b.batchID.Bytes()...)
 	logRecord.Type = datafile.LogRecordBatchFinished
 	logRecord.BatchID = uint64(b.batchID)
+	sizeBeforeFin := b.db.activeFile.Size()
 	finPos, err := b.db.activeFile.WriteLogRecord(logRecord, b.db.logRecordHeader)
 	b.db.putRecordToPool(logRecord)
 	if err != nil {
 		return err
 	}
-	// 完成标识记录占用空间, 但不属于有效数据
-	b.db.totalSize += int64(finPos.Size)
-	b.db.reclaimSize += int64(finPos.Size)
 	// 完成标识记录同样需要持久化, 否则断电后整个批处理丢失
 	if b.options.Sync {
 		if err := b.db.activeFile.Sync(); err != nil {
+			// 提交失败的批处理不会生效: 撤销完成标识, 否则重启后整个批处理仍会生效
+			_ = b.db.activeFile.Truncate(sizeBeforeFin)
 			return err
 		}
 	}
+	// 完成标识记录占用空间, 但不属于有效数据
+	b.db.totalSize += int64(finPos.Size)
+	b.db.reclaimSize += int64(finPos.Size)
 
 	b.applyStaged(dataPos)
 	b.staged = nil
